@@ -233,6 +233,19 @@ func universeAlphabet(c qcfg) func(m *model.Model) []drv.Op {
 				k[c.cfg.Range] = it[c.cfg.Range]
 			}
 			ops = append(ops, drv.Op{K: drv.KDel, Tag: "Del", Table: "tab", Key: k})
+			// writes that are rejected because of an index key type (on stored and on absent keys):
+			// whatever they leave behind shows in the queries of the states that follow
+			if len(c.cfg.GSI) > 0 {
+				g := c.cfg.GSI[0]
+				bad := val.N("5")
+				if g.HashT == "N" {
+					bad = val.S("x")
+				}
+				ops = append(ops, drv.Op{K: drv.KUpd, Tag: "Upd(rejected: index key type)", Table: "tab", Key: k, Upd: rx.U(rx.Set(g.Hash, rx.RV(":bad"))), Values: map[string]val.V{":bad": bad}})
+				w := it.Clone()
+				w[g.Hash] = bad
+				ops = append(ops, drv.Op{K: drv.KPut, Tag: "Put(rejected: index key type)", Table: "tab", Item: w})
+			}
 		}
 		return ops
 	}
